@@ -81,7 +81,7 @@ ZeroText(t) == CASE t = "string" -> E [] t = "cc" -> E [] t = "um" -> E [] t = "
 ZeroVal(od) == IF od.kind = "scalar" THEN <<ZeroText(od.vtype)>> ELSE IF od.kind = "flag" THEN <<S_false>> ELSE <<>>
 
 \* the built-in help option that ParseArgs adds to every command when HelpFlag is set (parser.go:215-218)
-HelpOpt(d, c) == [cmd |-> c, group |-> 0, short |-> 104, long |-> <<104, 101, 108, 112>>, kind |-> "help", vtype |-> "", ktype |-> "string", param |-> "",
+HelpOpt(d, c) == [cmd |-> c, group |-> 0, short |-> 104, long |-> <<104, 101, 108, 112>>, kind |-> "help", vtype |-> "", ktype |-> "string", param |-> "", late |-> FALSE,
                   base |-> 10, optional |-> FALSE, optvals |-> <<>>, required |-> FALSE, defaults |-> <<>>,
                   env |-> E, envDelim |-> E, choices |-> <<>>, hidden |-> FALSE, unquote |-> TRUE,
                   init |-> <<>>, failOn |-> <<>>, validator |-> FALSE,
@@ -89,9 +89,15 @@ HelpOpt(d, c) == [cmd |-> c, group |-> 0, short |-> 104, long |-> <<104, 101, 10
                   desc |-> <<83, 104, 111, 119, SPACE, 116, 104, 105, 115, SPACE, 104, 101, 108, 112, SPACE, 109, 101, 115, 115, 97, 103, 101>>]  \* Show this help message
 
 \* options in scope at command c, in the order the lookup maps are filled: ancestors first, then c
-\* (command.go:320-346); within a command in declaration order, the help group last.
+\* (command.go:320-346); within a command in declaration order, the help group last - except for groups that were added
+\* to the parser after its first parse (late): the built-in help group exists by then, so they come after it and their names win.
 ScopeSeq(opts, d, c) ==
-  FoldLeft(LAMBDA acc, a : acc \o SelectSeq([i \in 1..Len(opts) |-> i], LAMBDA o : opts[o].cmd = a), <<>>, Anc(d, c))
+  FoldLeft(LAMBDA acc, a : acc \o SelectSeq([i \in 1..Len(opts) |-> i], LAMBDA o : opts[o].cmd = a /\ ~opts[o].late)
+                               \o SelectSeq([i \in 1..Len(opts) |-> i], LAMBDA o : opts[o].cmd = a /\ opts[o].late), <<>>, Anc(d, c))
+\* only a scenario that says so (lateGroup, with a first parse) adds the groups marked late after that first parse; in
+\* every other scenario they are attached when the parser is built and nothing is late
+LateOn(sc) == "lateGroup" \in DOMAIN sc /\ sc.lateGroup /\ sc.hasPrelude
+StripLate(os) == [o \in 1..Len(os) |-> [os[o] EXCEPT !.late = FALSE]]
 
 ---------------------------------------------------------------------------
 (* The state *)
@@ -99,8 +105,9 @@ ScopeSeq(opts, d, c) ==
 HasOpt(s, f) == InSeq(s.sc.popts, f)
 
 S0(d, sc, ftab) ==
-  LET opts == IF InSeq(sc.popts, "HelpFlag")
-              THEN d.opts \o [c \in 1..Len(d.cmds) |-> HelpOpt(d, c)] ELSE d.opts
+  LET dopts == IF LateOn(sc) THEN d.opts ELSE StripLate(d.opts)
+      opts == IF InSeq(sc.popts, "HelpFlag")
+              THEN dopts \o [c \in 1..Len(d.cmds) |-> HelpOpt(d, c)] ELSE dopts
       n == Len(opts)
   IN [ d |-> d, sc |-> sc, ftab |-> ftab, opts |-> opts,
        nsLong |-> [o \in 1..n |-> NsLong(d, opts[o])],
@@ -500,6 +507,18 @@ ReuseState(s, argv) ==
             !.events = <<>>, !.err = NoErr, !.perr = NoErr, !.out = [stdout |-> 0, stderr |-> 0],
             !.phase = "start", !.cl = <<>>, !.steps = 0, !.nerr = 0,
             !.occ = <<>>, !.role = [i \in 1..Len(argv) |-> "pending"], !.hmod = FALSE]
+
+\* A group added to the parser (Parser.AddGroup) between two ParseArgs calls: while the earlier call runs its options do not
+\* exist - no name reaches them, they have no default, no environment key and are not required - and when the later call
+\* starts they are as fresh as on a new parser.  The option list keeps its length, so indices mean the same in both calls.
+MaskLate(s) ==
+  [s EXCEPT !.opts = [o \in 1..Len(s.opts) |-> IF s.opts[o].late
+                                              THEN [s.opts[o] EXCEPT !.long = E, !.short = 0, !.required = FALSE, !.defaults = <<>>, !.env = E]
+                                              ELSE s.opts[o]],
+            !.nsLong = [o \in 1..Len(s.opts) |-> IF s.opts[o].late THEN E ELSE s.nsLong[o]]]
+UnmaskLate(s, s0) ==
+  [s EXCEPT !.opts = s0.opts, !.nsLong = s0.nsLong,
+            !.isSetDef = [o \in 1..Len(s0.opts) |-> IF s0.opts[o].late THEN FALSE ELSE s.isSetDef[o]]]
 
 \* the loop is deterministic: exactly one action is enabled until the parse is done
 Step(s) == LET i == CHOOSE i \in EnabledSet(s) : TRUE IN [ApplyA(ActionNames[i], s) EXCEPT !.steps = @ + 1]
